@@ -822,6 +822,128 @@ var memo = map[string][]task{}
 
 const soloName = "solo: array of null with a huge declared count"
 
+// ---- inputs that are large in ONE dimension (everything else in this check is small in all of them): collections
+// made of very many tiny blocks, and schemas nested very deeply. Both are legal; time and stack must stay linear.
+
+type manyT struct {
+	L []int64          `json:"l"`
+	M map[string]int64 `json:"m"`
+	Z int64            `json:"z"`
+}
+
+func scaleTasks(tier string) []task {
+	var ts []task
+	counts := []int{1000, 100000, 8000000}
+	for _, kind := range []string{"array", "map"} {
+		for _, sized := range []bool{false, true} {
+			kind, sized := kind, sized
+			ts = append(ts, task{fmt.Sprintf("many-tiny-blocks %s sized=%v", kind, sized), func(c *fw.Ctx) {
+				schema := `{"type":"record","name":"m","fields":[{"name":"l","type":{"type":"array","items":"long"}},{"name":"z","type":"long"}]}`
+				item := []byte{2} // long 1
+				if kind == "map" {
+					schema = `{"type":"record","name":"m","fields":[{"name":"m","type":{"type":"map","values":"long"}},{"name":"z","type":"long"}]}`
+					item = []byte{2, 'k', 2} // key "k", long 1
+				}
+				s, err := avro.SchemaFromString(schema)
+				if err != nil {
+					c.HarnessError(err.Error())
+					return
+				}
+				readC, err1 := s.Codec(manyT{})
+				skipC, err2 := s.Codec(struct {
+					Z int64 `json:"z"`
+				}{})
+				if err1 != nil || err2 != nil {
+					c.HarnessError(fmt.Sprint(err1, err2))
+					return
+				}
+				for _, n := range counts {
+					var in []byte
+					for i := 0; i < n; i++ {
+						if sized {
+							in = append(in, 1) // count -1
+							in = append(in, byte(2*len(item)))
+						} else {
+							in = append(in, 2) // count 1
+						}
+						in = append(in, item...)
+					}
+					in = append(in, 0, 10) // end of collection, z = 5
+					mut := fmt.Sprintf("%d-one-item-blocks", n)
+					c.NontrivialN(3)
+					guard(c, "Codec.Read", kind+">long", mut, in, func() {
+						var v manyT
+						readC.Read(avro.NewReadBuf(in), unsafe.Pointer(&v))
+					})
+					guard(c, "Codec.Read(skip path)", kind+">long", mut, in, func() {
+						var v struct {
+							Z int64 `json:"z"`
+						}
+						if err := skipC.Read(avro.NewReadBuf(in), unsafe.Pointer(&v)); err == nil && v.Z != 5 {
+							panic(fmt.Sprintf("skip path lost its place: z=%d", v.Z))
+						}
+					})
+					guard(c, "Codec.Skip", kind+">long", mut, in, func() { readC.Skip(avro.NewReadBuf(in)) })
+				}
+				c.Sample(map[string]interface{}{"entry": "Codec.Read/Skip", "kind": "many tiny blocks", "collection": kind, "size_prefixed": sized, "block_counts": counts})
+			}})
+		}
+	}
+	// deep nesting: d levels of nullable arrays / maps / records around a leaf that is fine, unknown, or not
+	// buildable; construction must be refused or finish — in time linear in the document
+	depths := []int{4, 12, 24, 40, 64}
+	ts = append(ts, task{"deeply-nested-schemas", func(c *fw.Ctx) {
+		n := 0
+		for _, d := range depths {
+			for _, leaf := range []string{`"long"`, `"string"`, `"bogus"`, `"fixed"`, `{"type":"enum","name":"e","symbols":["A"]}`, `["null","long"]`, `"null"`} {
+				for shape := 0; shape < 4; shape++ {
+					doc := leaf
+					for i := 0; i < d; i++ {
+						switch (shape + i) % 4 * boolInt(shape != 0) {
+						case 0:
+							doc = `["null",{"type":"array","items":` + doc + `}]`
+						case 1:
+							doc = `{"type":"map","values":` + doc + `}`
+						case 2:
+							doc = fmt.Sprintf(`{"type":"record","name":"r%d","fields":[{"name":"x","type":%s}]}`, i, doc)
+						default:
+							doc = `[` + doc + `,"null"]`
+							if i > 0 && strings.HasPrefix(doc, `[[`) {
+								doc = `{"type":"array","items":` + doc[1:len(doc)-len(`,"null"]`)] + `}`
+							}
+						}
+					}
+					n++
+					m := doc
+					guard(c, "SchemaFromString+Schema.Codec", "schema-json", fmt.Sprintf("nesting-depth-%d", d), []byte(m), func() {
+						s, err := avro.SchemaFromString(m)
+						if err != nil {
+							return
+						}
+						for _, fn := range []string{"a", "l", "t", "zz"} {
+							one := avro.Schema{Type: "record", Object: &avro.SchemaObject{Name: "w1", Fields: []avro.SchemaRecordField{{Name: fn, Type: s}}}}
+							if codec, err := one.Codec(anyStruct{}); err == nil {
+								var v anyStruct
+								codec.Read(avro.NewReadBuf([]byte{0, 0, 0, 0}), unsafe.Pointer(&v))
+							}
+						}
+					})
+				}
+			}
+		}
+		c.NontrivialN(int64(n))
+		c.Sample(map[string]interface{}{"entry": "SchemaFromString+Schema.Codec", "kind": "deep nesting", "depths": depths, "documents": n})
+	}})
+	return ts
+}
+
+func boolInt(b bool) int {
+	if b {
+		return 1
+	}
+	return 0
+}
+
 func tasks(tier string) []task {
 	if t, ok := memo[tier]; ok {
 		return t
@@ -843,6 +965,7 @@ func tasks(tier string) []task {
 	ts = append(ts, fileTasks(tier)...)
 	ts = append(ts, schemaTasks(tier)...)
 	ts = append(ts, timeTasks(tier)...)
+	ts = append(ts, scaleTasks(tier)...)
 	memo[tier] = ts
 	return ts
 }
